@@ -108,6 +108,10 @@ func genNF5(r *rand.Rand, n int, w *bufio.Writer) {
 			msg = msg[:k]
 		case 1: // trailing octets
 			msg = append(msg, rndBytes(r, 1+r.Intn(60))...)
+		case 2, 3: // the last announced record 1..47 octets short
+			if k := 24 + 48*cnt - 1 - r.Intn(47); wf && k <= len(msg) {
+				msg = msg[:k]
+			}
 		}
 		exp := "noflows"
 		_ = short
@@ -144,6 +148,8 @@ func runNF5(st *state, line, expect string) (string, string) {
 			cls = "badver"
 		case strings.Contains(e, "flow count out of bounds"):
 			cls = "badcount"
+		case strings.Contains(e, "remaining bytes encountered"):
+			cls = "shortflows" // fewer octets than the header announces: rejected as a whole since the F29 repair
 		}
 		v := "ok"
 		if expect != "noflows" && expect != "-" {
@@ -182,6 +188,10 @@ func runNF5(st *state, line, expect string) (string, string) {
 	}
 	verdict := "ok"
 	switch {
+	case err != nil:
+		// v5 has no partially decodable packet: a packet is decoded or rejected. A message handed out together with an
+		// error is counted by the worker as decoded (`decodedMsg != nil`) although the decode failed (C13, F29)
+		verdict = "fail:decoded-and-failed Decode returned a message together with the error \"" + err.Error() + "\": the worker counts the datagram as decoded although Decode failed"
 	case expect == "noflows" && len(m.Flows) > 0:
 		verdict = fmt.Sprintf("fail:reject %d flows from a packet that must yield none", len(m.Flows))
 	case expect != "noflows" && expect != "-" && dec != expect:
